@@ -74,20 +74,25 @@ func runConc(c *proto.ConcJob) *proto.ConcResult {
 		verifhook.OnFileAccess, verifhook.OnScanStep, verifhook.OnPhase = saveFA, saveSS, savePh
 	}()
 
-	// phase 1: baseline
+	// phase 1: baseline (after the concurrent phase in a cold start)
 	type base struct {
 		build string
 		outs  map[string]string
 	}
 	baseline := make([]base, len(c.Projects))
-	for i, p := range c.Projects {
-		b := buildMem(p.Name, p.Content)
-		baseline[i] = base{build: buildSig(b), outs: map[string]string{}}
-		if b.accepted {
-			for _, op := range serOps {
-				baseline[i].outs[op] = outKey(b.call(op, false))
+	computeBaseline := func() {
+		for i, p := range c.Projects {
+			b := buildMem(p.Name, p.Content)
+			baseline[i] = base{build: buildSig(b), outs: map[string]string{}}
+			if b.accepted {
+				for _, op := range serOps {
+					baseline[i].outs[op] = outKey(b.call(op, false))
+				}
 			}
 		}
+	}
+	if !c.ColdStart {
+		computeBaseline()
 	}
 
 	var mu sync.Mutex
@@ -100,6 +105,12 @@ func runConc(c *proto.ConcJob) *proto.ConcResult {
 	}
 	var builds, sers, comps int64
 
+	type obs struct {
+		idx   int
+		build string
+		outs  map[string]string
+	}
+	var coldObs []obs
 	// phase 2: concurrent builds of different projects
 	rng := rand.New(rand.NewSource(c.Seed))
 	for r := 0; r < c.Rounds; r++ {
@@ -116,6 +127,20 @@ func runConc(c *proto.ConcJob) *proto.ConcResult {
 				p := c.Projects[idx]
 				b := buildMem(p.Name, p.Content)
 				atomic.AddInt64(&builds, 1)
+				if c.ColdStart {
+					o := obs{idx: idx, build: buildSig(b), outs: map[string]string{}}
+					if b.accepted {
+						for k := range serOps {
+							op := serOps[(k+rot)%len(serOps)]
+							o.outs[op] = outKey(b.call(op, false))
+							atomic.AddInt64(&sers, 1)
+						}
+					}
+					mu.Lock()
+					coldObs = append(coldObs, o)
+					mu.Unlock()
+					return
+				}
 				atomic.AddInt64(&comps, 1)
 				if s := buildSig(b); s != baseline[idx].build {
 					addMismatch(fmt.Sprintf("build of %s: alone=%s concurrent=%s", p.Name, baseline[idx].build, s))
@@ -139,6 +164,23 @@ func runConc(c *proto.ConcJob) *proto.ConcResult {
 		wg.Wait()
 	}
 
+	if c.ColdStart {
+		computeBaseline()
+		for _, o := range coldObs {
+			p := c.Projects[o.idx]
+			atomic.AddInt64(&comps, 1)
+			if o.build != baseline[o.idx].build {
+				addMismatch(fmt.Sprintf("cold-start build of %s: alone=%s concurrent=%s", p.Name, baseline[o.idx].build, o.build))
+				continue
+			}
+			for op, got := range o.outs {
+				atomic.AddInt64(&comps, 1)
+				if got != baseline[o.idx].outs[op] {
+					addMismatch(fmt.Sprintf("%scold-start %s of %s: alone=%s concurrent=%s", onlyEx(baseline[o.idx].outs[op], got), op, p.Name, trunc(baseline[o.idx].outs[op], 400), trunc(got, 400)))
+				}
+			}
+		}
+	}
 	// phase 3: one built catalog serialised by several goroutines at once (first call of every lazy state is concurrent)
 	if c.SharedSer > 0 {
 		for i, p := range c.Projects {
